@@ -15,7 +15,7 @@ pub fn spec(tier: Tier) -> RelSpec {
     // exploration aid (not a registered tier): MC_C01_DEPTH=3 enumerates depth-3 programs over two source kinds
     if let Ok(d) = std::env::var("MC_C01_DEPTH") {
         let d: usize = d.parse().unwrap_or(3);
-        return RelSpec { property: "C01", cfgs: vec![mk(d, vec![SrcKind::OpenT, SrcKind::LetClosed], 1)], exh_depth: 0, exh_size: (2, 1), decides: vec![Kind::Rows, Kind::Arity, Kind::EngineReject], keyfn };
+        return RelSpec { property: "C01", cfgs: vec![mk(d, vec![SrcKind::OpenT, SrcKind::LetClosed], 1)], exh_depth: 0, exh_size: (2, 1), decides: vec![Kind::Rows, Kind::Arity, Kind::EngineReject], keyfn, extra: None };
     }
     let cfgs = match tier {
         Tier::Quick => vec![
@@ -41,6 +41,7 @@ pub fn spec(tier: Tier) -> RelSpec {
         exh_size: (2, 1),
         decides: vec![Kind::Rows, Kind::Arity, Kind::EngineReject],
         keyfn,
+        extra: None,
     }
 }
 
